@@ -345,6 +345,10 @@ func (dec *Decoder) ReadReference(p interface{}) {
 
 // ResetReader reuse decoder instance by specifying another reader.
 func (dec *Decoder) ResetReader(reader io.Reader) *Decoder {
+	if dec.reader == nil {
+		// the buffer is the input of NewDecoder / ResetBytes and belongs to that caller
+		dec.buf = nil
+	}
 	dec.reader = reader
 	dec.head = 0
 	dec.tail = 0
